@@ -106,14 +106,28 @@ class RegexGenerator:
         letters = "".join(set(self._alphabet["letters"]) - set(exclude_letters))
         if len(letters) == 0:
             # the class excludes the whole alphabet: fall back to the first character it admits
-            letters = self._first_letter_not_in(exclude_letters)
+            categories = [val for opcode, val in value if opcode == CATEGORY]
+            letters = self._first_letter_not_in(exclude_letters, categories)
         return self._random.random_choice(letters)
 
-    def _first_letter_not_in(self, exclude_letters: str) -> str:
+    def _is_in_category(self, category: Any, letter: str) -> bool:
+        # what the regex engine puts in the category (the alphabets above are only its ASCII part)
+        if category == CATEGORY_DIGIT:
+            return letter.isdecimal()
+        elif category == CATEGORY_WORD:
+            return letter.isalnum() or (letter == "_")
+        else:
+            raise ValueError(f"Unknown category {category}")
+
+    def _first_letter_not_in(self, exclude_letters: str, categories: List[Any]) -> str:
         excluded = set(exclude_letters)
         for code in range(sys.maxunicode + 1):
-            if chr(code) not in excluded:
-                return chr(code)
+            letter = chr(code)
+            if letter in excluded:
+                continue
+            if any(self._is_in_category(category, letter) for category in categories):
+                continue
+            return letter
         raise ValueError("Negated character class excludes every character")
 
     def _generate_not_literal(self, value: int) -> str:
